@@ -66,3 +66,29 @@ func init() {
 		os.Exit(0)
 	}
 }
+
+func init() {
+	if len(os.Args) > 1 && os.Args[1] == "dbgfold" {
+		p, _ := LoadProg("/repo", "", "", nil)
+		fn := p.Fn("pkg/protocol", "maxFragmentSize")
+		f := &Folder{P: p, Assume: func(v ssa.Value) (cval, bool) {
+			switch x := v.(type) {
+			case *ssa.Field:
+				if fo := fieldOrigin(x); fo != nil && fo.Name() == "sourceBytesPerChunk" {
+					return cInt(4), true
+				}
+			case *ssa.Extract:
+				if call, ok := x.Tuple.(*ssa.Call); ok && calleeName(call) == "buildLowEntropyParams" && x.Index == 1 {
+					return cval{isNil: true}, true
+				}
+			}
+			return cval{}, false
+		}, OnCall: func(call *ssa.Call, args []cval) { fmt.Println("call", calleeID(call), args) }}
+		outs := f.Eval(fn, []cval{cInt(1280), cInt(2), cInt(1)})
+		for _, o := range outs {
+			fmt.Printf("%+v\n", o)
+		}
+		fn.WriteTo(os.Stdout)
+		os.Exit(0)
+	}
+}
